@@ -30,6 +30,34 @@ SUPPORT_BASIS = [
 ]
 
 
+# wave 4: (a) the shapes behind genshi fixes e131362 / ef611bc (an attribute step before the last step, an
+# attribute step with a node-type test), (b) a systematic basis: every single step (7 axis spellings x 10 node
+# tests x with/without a predicate), every pair and every triple of steps over a reduced alphabet.
+SUPPORT_BASIS += [
+    'a/@b/c', 'a/@b/@c', 'a/@b/text()', 'a/@b/self::b', 'a/@b/.', '@a/@b', 'a/b/@c', 'a/b/@c/d', 'self::a/@b',
+    'descendant::a/@b', '//a/@b', 'a/attribute::text()', 'a/attribute::comment()', 'a/attribute::node()', 'a/@*',
+    'a/@x:b', 'a/attribute::b/c', 'a/descendant::b/@c', 'a/descendant::b/@c/d', 'a/self::a/@b',
+]
+_AXES1 = ['', '@', 'child::', 'attribute::', 'self::', 'descendant::', 'descendant-or-self::']
+_TESTS1 = ['a', '*', 'text()', 'node()', 'comment()', 'processing-instruction()', "processing-instruction('x')",
+           'x:a', 'x:*', 'b']
+_AXES2 = ['', '@', 'self::', 'descendant::', 'descendant-or-self::']
+_STEPS2 = [ax + 'a' for ax in _AXES2] + ['text()', '@text()', 'self::text()', 'a[1]', '.', 'node()', '*', 'comment()']
+_STEPS3 = [ax + 'a' for ax in _AXES2] + ['text()']
+
+
+def systematic_basis():
+    out = [ax + t + pr for ax in _AXES1 for t in _TESTS1 for pr in ('', '[1]')]
+    out += ['%s/%s' % (s1, s2) for s1 in _STEPS2 for s2 in _STEPS2]
+    out += ['%s/%s/%s' % (s1, s2, s3) for s1 in _STEPS3 for s2 in _STEPS3 for s3 in _STEPS3]
+    seen, res = set(SUPPORT_BASIS), []
+    for t in out:
+        if t not in seen:
+            seen.add(t)
+            res.append(t)
+    return res
+
+
 def lstr(s):
     return chars(s)
 
@@ -98,13 +126,27 @@ def gen_path():
     parts.append('/-- from genshi/path.py:Path.STRATEGIES -/')
     parts.append('def strategies : List (List Char) := [\n  %s]\n' % ',\n  '.join(lstr(c.__name__) for c in P.Path.STRATEGIES))
 
-    rows = []
-    for text in SUPPORT_BASIS:
-        path = P.PathParser(text).parse()[0]
-        v = [bool(c.supports(path)) for c in (P.SingleStepStrategy, P.SimplePathStrategy, P.GenericStrategy)]
-        rows.append('(%s, %s)' % (lstr(text), '[%s]' % ', '.join('true' if x else 'false' for x in v)))
+    def probe_rows(texts):
+        rows = []
+        for text in texts:
+            try:
+                path = P.PathParser(text).parse()[0]
+            except Exception:  # noqa  (a shape the parser rejects is no path shape)
+                continue
+            v = [bool(c.supports(path)) for c in (P.SingleStepStrategy, P.SimplePathStrategy, P.GenericStrategy)]
+            rows.append('(%s, %s)' % (lstr(text), '[%s]' % ', '.join('true' if x else 'false' for x in v)))
+        return rows
+    rows = probe_rows(SUPPORT_BASIS)
     parts.append('/-- probe: `supports` of SingleStepStrategy, SimplePathStrategy, GenericStrategy on a basis of paths -/')
     parts.append('def supportsProbe : List (List Char × List Bool) := [\n  %s]\n' % ',\n  '.join(rows))
+    rows = probe_rows(systematic_basis())
+    names = []
+    for k in range(0, len(rows), 48):
+        names.append('supportsProbeSys%d' % (k // 48))
+        parts.append('def %s : List (List Char × List Bool) := [\n  %s]\n' % (names[-1], ',\n  '.join(rows[k:k + 48])))
+    parts.append('/-- probe: the same on a systematic basis (every single step, every pair and triple of steps over a '
+                 'reduced alphabet), in chunks -/')
+    parts.append('def supportsProbeSys : List (List (List Char × List Bool)) := [%s]\n' % ', '.join(names))
 
     def const_step(st):
         axis, test, preds = st
